@@ -28,7 +28,7 @@ ASSUMPTIONS = ['the scheduler switches tasks only at sleep, lock and simulated I
 def budget(tier):
     if tier == 'quick':
         return {'shards': 16, 'examples': 60, 'wall': 240}
-    return {'shards': 16, 'examples': 4000, 'wall': 2400}
+    return {'shards': 16, 'examples': 3000, 'wall': 2400}
 
 
 @st.composite
